@@ -575,6 +575,21 @@ fn oracles(
         }
     }
 
+    // ---- never_defined, nested: a named record declared inside a record of a blocklisted *file* is in that file too
+    if !c.block.files.is_empty() {
+        for &i in &c.blocked {
+            let d = &p.decls[i];
+            let nested = format!("{}_In", d.base);
+            if d.file == 1 && d.text.contains(&format!("struct {nested} ")) {
+                st.bump("nested-in-blocklisted-file");
+                if let Some(l) = leaves.iter().find(|l| !matches!(l.kind, "impl" | "use" | "other") && l.name.as_deref().is_some_and(|n| n == nested || n.ends_with(&format!("_{nested}")))) {
+                    fails.push(Failure { kind: "oracle-never-defined", detail: format!("`{nested}` is declared (inside `{}`) in a blocklisted file and is defined in the bindings as a {}: {}", d.base, l.kind, &l.text[..l.text.len().min(300)]), input: case_json(c) });
+                    return;
+                }
+            }
+        }
+    }
+
     // ---- others_unchanged: every other non-impl item occurs in the un-blocklisted bindings, modulo derives
     st.others_checked += 1;
     let full_norm: BTreeSet<String> = full_leaves.iter().map(|l| strip_derives(&l.text)).collect();
